@@ -22,9 +22,10 @@ import (
 var rsaSecret = map[*big.Int][]byte{}
 
 type pssEntry struct {
-	n      *big.Int
-	digest []byte
-	sig    []byte
+	n       *big.Int
+	digest  []byte
+	sig     []byte
+	saltLen int // length of the PSS salt the signature was made with
 }
 
 var pssLog []pssEntry
@@ -98,7 +99,7 @@ func BlindrsaStateFinalize(s MVerifierState, data []byte) ([]byte, error) {
 		return nil, errf("blindrsa: invalid signature")
 	}
 	sig := vUF("rsa_sig", len(n), secret, s.Msg, s.Salt)
-	pssLog = append(pssLog, pssEntry{n: s.Pk.N, digest: vUF("sha384", 48, s.Msg), sig: sig})
+	pssLog = append(pssLog, pssEntry{n: s.Pk.N, digest: vUF("sha384", 48, s.Msg), sig: sig, saltLen: len(s.Salt)})
 	return sig, nil
 }
 
@@ -120,9 +121,20 @@ func BlindrsaSignerBlindSign(s MSigner, data []byte) ([]byte, error) {
 }
 
 func RsaVerifyPSS(pub *rsa.PublicKey, h crypto.Hash, digest []byte, sig []byte, opts *rsa.PSSOptions) error {
+	// the salt length the verifier insists on: -2 = any (PSSSaltLengthAuto or no options)
+	want := -2
+	if opts != nil {
+		switch opts.SaltLength {
+		case rsa.PSSSaltLengthAuto:
+		case rsa.PSSSaltLengthEqualsHash:
+			want = h.Size()
+		default:
+			want = opts.SaltLength
+		}
+	}
 	for i := range pssLog {
 		e := pssLog[i]
-		if e.n == pub.N {
+		if e.n == pub.N && (want == -2 || want == e.saltLen) {
 			if vBytesEq(e.digest, digest) {
 				if vBytesEq(e.sig, sig) {
 					return nil
